@@ -84,6 +84,16 @@ Proof.
       * rewrite !andb_false_r. reflexivity.
 Qed.
 
+Lemma N_ltb_Z a b : (a <? b)%N = (Z.of_N a <? Z.of_N b).
+Proof. destruct (a <? b)%N eqn:E1; destruct (Z.of_N a <? Z.of_N b) eqn:E2; try reflexivity;
+  try (apply N.ltb_lt in E1); try (apply N.ltb_ge in E1); try (apply Z.ltb_lt in E2); try (apply Z.ltb_ge in E2); lia. Qed.
+Lemma N_leb_Z a b : (a <=? b)%N = (Z.of_N a <=? Z.of_N b).
+Proof. destruct (a <=? b)%N eqn:E1; destruct (Z.of_N a <=? Z.of_N b) eqn:E2; try reflexivity;
+  try (apply N.leb_le in E1); try (apply N.leb_gt in E1); try (apply Z.leb_le in E2); try (apply Z.leb_gt in E2); lia. Qed.
+
+(* The proofs below first rewrite the model's comparisons into the translator's vocabulary and
+   then split on every atom, so that a reordering of the tests in the source (which leaves the
+   decision unchanged) does not break them. *)
 Lemma check_config_agrees s c lc :
   last_opt (configs s) = Some lc ->
   Z.of_nat (List.length (c_keypers c)) < two63 ->
@@ -91,14 +101,10 @@ Lemma check_config_agrees s c lc :
   Some (gen_check_config (Z.of_nat (List.length (c_keypers c))) (Z.of_N (c_threshold c))
                          (Z.of_N (c_act c)) (Z.of_N (c_index c)) (Z.of_N (c_act lc)) (Z.of_N (c_index lc))).
 Proof.
-  intros Hl Hlen. unfold check_config, gen_check_config. rewrite Hl, ensure_valid_agrees.
+  intros Hl Hlen. unfold check_config, gen_check_config. rewrite Hl, ensure_valid_agrees, N_ltb_Z, N_leb_Z.
   replace (Z.of_nat (List.length (c_keypers c)) <? two63) with true by (symmetry; apply Z.ltb_lt; exact Hlen).
   rewrite andb_true_r.
-  destruct (gen_ensure_valid _ _); cbn [negb]; [|reflexivity].
-  destruct (c_act c <? c_act lc)%N eqn:E1; destruct (Z.of_N (c_act c) <? Z.of_N (c_act lc)) eqn:E2;
-    try (apply N.ltb_lt in E1); try (apply N.ltb_ge in E1); try (apply Z.ltb_lt in E2); try (apply Z.ltb_ge in E2); try lia; try reflexivity.
-  destruct (c_index c <=? c_index lc)%N eqn:E3; destruct (Z.of_N (c_index c) <=? Z.of_N (c_index lc)) eqn:E4;
-    try (apply N.leb_le in E3); try (apply N.leb_gt in E3); try (apply Z.leb_le in E4); try (apply Z.leb_gt in E4); try lia; reflexivity.
+  destruct (gen_ensure_valid _ _), (Z.of_N (c_act c) <? Z.of_N (c_act lc)), (Z.of_N (c_index c) <=? Z.of_N (c_index lc)); reflexivity.
 Qed.
 
 (* CheckTxState.AddTx as read off the source decides the CheckTx code of the model (for a
@@ -112,11 +118,9 @@ Lemma add_tx_agrees s signer chain nonce p :
   then 0%N else 1%N.
 Proof.
   intros Hc Hn. unfold check_tx, gen_add_tx_ok. rewrite Hc, Hn. cbn [negb].
-  replace (0 <? Z.of_nat (List.length (chk_members s))) with (negb (Nat.eqb (List.length (chk_members s)) 0)).
-  2:{ destruct (chk_members s); reflexivity. }
-  destruct (negb (Nat.eqb (List.length (chk_members s)) 0) && negb (mem_addr signer (chk_members s))); [reflexivity|].
+  replace (0 <? Z.of_nat (List.length (chk_members s))) with (negb (Nat.eqb (List.length (chk_members s)) 0))
+    by (destruct (chk_members s); reflexivity).
   change gen_max_txs_per_block with max_txs_per_block.
-  destruct (max_txs_per_block <=? _); [reflexivity|].
-  rewrite negb_involutive.
-  destruct (nonce_used (chk_nonces s) signer nonce); reflexivity.
+  destruct (Nat.eqb (List.length (chk_members s)) 0), (mem_addr signer (chk_members s)),
+    (max_txs_per_block <=? _), (nonce_used (chk_nonces s) signer nonce); reflexivity.
 Qed.
